@@ -8,6 +8,19 @@ ROOT = os.path.dirname(os.path.dirname(os.path.abspath(__file__)))
 TECH = "bounded symbolic execution of the real Python source (sx: replay-based DSE) with z3 deciding every path and assertion query"
 
 CLAIMED = {
+    "C06": {
+        "category": "other",
+        "text": "Table-level round trip on the real _detect_columns, _extract_data, _split_sweeps, dataframe_to_data_sets and DataSet.to_dataframe over a "
+                "stand-in table: every documented alias of every quantity x leading hyphen/minus sign x three letter cases x unit suffixes x all six "
+                "column orders (cartesian and polar layouts) must be detected in its column with its sign flag; with all cell values symbolic, 1..2 (3) "
+                "consecutive sweeps of symbolic frequencies (ascending or descending, a single sweep may have one point), sign-inverted imaginary/"
+                "phase columns, degrees or radians, the returned data sets carry exactly the written frequencies and impedances with the documented "
+                "sign, one per sweep, in order; the table emitted by to_dataframe parses back to the same spectrum.",
+        "design_ref": "DESIGN.md section 4, C06",
+        "note": "PARTIAL: the text layer (pandas.read_csv/to_csv, separator sniffing, decimal commas), the instrument layouts (.mpt .i2b .P00 .dfr "
+                ".dta .z) and the CLI table are file I/O / C parsers and are not claimed; cmath.rect is a contract stub; headers are alias + a suffix "
+                "from a fixed list",
+    },
     "C07": {
         "category": "other",
         "text": "Spectra are generated symbolically by the real model circuit (_generate_circuit + _update_circuit on a symbolic variable "
@@ -230,6 +243,8 @@ CLAIMED = {
 }
 
 NOT_APPLICABLE = {
+    "C19": "the CLI layer is argparse, str.split/float() text handling (C level), pandas formatting and file output around direct calls of the API; "
+           "a check of it would be concrete enumeration of command lines, not a solver-based decision (the API results it prints are covered by C05/C08/C12)",
     "C10": "statistical statement about an optimisation pipeline on random data (noise estimate 'of the order of' the injected one over seeds); curve_fit/lmfit/RNG have no encoding within reach and an acceptance band is not an SMT assertion",
 }
 
